@@ -43,7 +43,7 @@ class TracingDeque(deque):
         if path:
             fd = os.open(path, os.O_WRONLY | os.O_APPEND | os.O_CREAT, 0o644)
             try:
-                os.write(fd, (json.dumps({"pid": os.getpid(), "kind": self.kind, "uid": getattr(row, "uid", None)}) + "\n").encode())
+                os.write(fd, (json.dumps({"pid": os.getpid(), "kind": self.kind, "uid": getattr(row, "uid", None), "len": int(np.size(row))}) + "\n").encode())
             finally:
                 os.close(fd)
         return row
@@ -126,6 +126,17 @@ def install_tracing():
         return out
 
     Uniform.sample = sample
+    # every call of the Poisson sampler (record only): the number of jump counts drawn, to be set against the number consumed
+    from rpylib.distribution.univariate.poisson import Poisson
+
+    orig_poisson = Poisson.sample
+
+    def poisson_sample(self, size=1):
+        out = orig_poisson(self, size)
+        _event({"kind": "poisson_draw", "n": int(np.size(out))})
+        return out
+
+    Poisson.sample = poisson_sample
     # every normal variate drawn from numpy's global generator (record only): in the jump-time modes nothing is pre-drawn, a normal variate
     # is consumed by the path that draws it
     orig_normal = np.random.normal
@@ -254,15 +265,16 @@ def _py_digest():
 # ------------------------------------------------------------------------------------------------------------
 # the runs
 # ------------------------------------------------------------------------------------------------------------
-def _product(stochastic_dates, T=1.0, multi=False):
+def _product(stochastic_dates, T=1.0, multi=False, monthly=False):
     from rpylib.product.product import Product
-    from rpylib.product.underlying import Spot, Mean
+    from rpylib.product.underlying import Spot, Mean, Asian, Discretisation
     from rpylib.product.payoff import Forward, PayoffDates
 
     pay = Forward(strike=0.0)
     if stochastic_dates:
         pay.payoff_dates_type = PayoffDates.STOCHASTIC
-    return Product(payoff_underlying=Mean() if multi else Spot(), payoff=pay, maturity=T)
+    und = Mean() if multi else (Asian(Discretisation.MONTHLY) if monthly else Spot())
+    return Product(payoff_underlying=und, payoff=pay, maturity=T)
 
 
 def _copula_model():
@@ -288,7 +300,7 @@ def do_run(spec):
     fixed = {"bs": {"family": "BS", "params": {"sigma": 0.25}, "exp": True, "spot": 100.0, "r": 0.03, "d": 0.01},
              "hem": {"family": "HEM", "params": {"sigma": 0.15, "p": 0.6, "eta1": 25.0, "eta2": 30.0, "intensity": 4.0}, "exp": True, "spot": 100.0, "r": 0.03, "d": 0.0},
              "merton": {"family": "MERTON", "params": {"sigma": 0.1, "mu_j": 0.02, "sigma_j": 0.1, "intensity": 3.0}, "exp": True, "spot": 50.0, "r": 0.02, "d": 0.0}}
-    product = _product(spec.get("stochastic_dates", False), multi=spec["process"] == "copula")
+    product = _product(spec.get("stochastic_dates", False), multi=spec["process"] == "copula", monthly=bool(spec.get("monthly")))
     if spec["engine"] == "standard":
         from rpylib.montecarlo.configuration import ConfigurationStandard
         from rpylib.montecarlo.standard.engine import Engine
